@@ -318,6 +318,9 @@ func ruleC04(c *Check) {
 	c.depositPairing("C04.4", ss...)
 	c.availabilityPairs("C04.5")
 	c.startRules("C04")
+	c.pricingTextPairs("C04.5")
+	c.paramSetExact("C04.3")
+	c.fractionValidators("C04.3")
 }
 
 func (c *Check) triggerShape(trig FactSet) (string, bool) {
